@@ -98,27 +98,17 @@ RULES = {
 }
 
 
-def check(ctx):
-    prop, tier, seed = ctx['prop'], ctx['tier'], ctx['seed']
-    res = runpass.cached_pass(tier, seed)
-    res = dict(res, runs=list(res['runs']))
-    # property-specific extra runs (not shared): GP tasks are rare in the common pass
+def extra_configs(prop, tier, seed):
+    """configurations beyond the shared pass that exercise the rare sites / settings of one property"""
+    import runlevel, random as _random
+    extra = []
     if prop == 'C12':
-        import runlevel
-        extra = [c for c in runlevel.gen_configs('thorough', seed + 77) if c['kind'] == 'GP'][:40 if tier == 'quick' else 120]
-        drv = common.Driver()
-        try:
-            for c in extra:
-                c = dict(c, hook='observer')
-                res['runs'].append(runpass.analyse_run(c, drv, props=['C12']))
-        finally:
-            drv.close()
+        for c in [c for c in runlevel.gen_configs('thorough', seed + 77) if c['kind'] == 'GP'][:40 if tier == 'quick' else 120]:
+            extra.append(dict(c, hook='observer'))
     if prop in ('C01', 'C02'):
         # rare sites: GP best on the boundary, ABC scout, BHA double exchange
-        import runlevel, random as _random
         rng = _random.Random(seed * 17 + 3)
         pool = runlevel.gen_configs('thorough', seed + 55)
-        extra = []
         for c in [c for c in pool if c['kind'] == 'GP'][:25 if tier == 'quick' else 80]:
             c = dict(c, hook='observer', objective=rng.choice(['boundary', 'signchange', 'negative']), box='offset')
             c['lb'], c['ub'] = runlevel.make_box(rng, rng.choice(['offset', 'narrow', 'unit']), c['n_vars'])
@@ -131,19 +121,31 @@ def check(ctx):
             c = dict(c, hook='observer', n_iter=8, n_agents=rng.choice([5, 8]), objective=rng.choice(['sphere', 'rastrigin', 'weighted']), box='wide')
             c['lb'], c['ub'] = runlevel.make_box(rng, 'wide', c['n_vars'])
             extra.append(c)
-        drv = common.Driver()
-        try:
-            for c in extra:
-                res['runs'].append(runpass.analyse_run(c, drv, props=[prop]))
-        finally:
-            drv.close()
+    if prop == 'C15':
+        # adaptive kinds with degenerate ranges (min == max), an initial w outside [w_min, w_max], end points;
+        # and, for every kind, one hyperparameter re-set through its setter after a dictionary construction
+        rng = _random.Random(seed * 13 + 7)
+        pool = runlevel.gen_configs('thorough', seed + 33)
+        for kind in ('AIWPSO', 'IHS', 'SA', 'FA', 'WCA'):
+            ks = [c for c in pool if c['kind'] == kind][:10 if tier == 'quick' else 40]
+            for j, c in enumerate(ks):
+                mode = ['degenerate', 'outside', 'ends', 'degenerate', 'random'][j % 5]
+                c = dict(c, hook='observer', n_iter=rng.choice([1, 2, 3, 6]),
+                         hyper=runlevel.hyper_sample(rng, kind, c['n_agents'], mode))
+                if kind == 'AIWPSO':
+                    c['objective'] = rng.choice(['sphere', 'plateau', 'constant', 'rastrigin'])
+                extra.append(c)
+        for kind in runlevel.KINDS:
+            ks = [c for c in pool if c['kind'] == kind][10:12 if tier == 'quick' else 16]
+            for c in ks:
+                h = runlevel.hyper_sample(rng, kind, c['n_agents'], 'random')
+                c = dict(c, hook='observer', hyper=h, hyper_post=runlevel.hyper_post_sample(rng, kind, c['n_agents'], h))
+                extra.append(c)
     if prop == 'C07':
         # replacements by copy are rare events (ABC scout accepted, HS replace-worst, BHA exchange, GP
         # reproduction): extra runs of exactly those kinds, long enough for the event to happen
-        import runlevel, random as _random
         rng = _random.Random(seed * 31 + 5)
         pool = [c for c in runlevel.gen_configs('thorough', seed + 91) if c['kind'] in ('ABC', 'HS', 'IHS', 'BHA', 'GP', 'CS')]
-        extra = []
         for kind in ('ABC', 'HS', 'IHS', 'BHA', 'GP', 'CS'):
             ks = [c for c in pool if c['kind'] == kind][:8 if tier == 'quick' else 30]
             for c in ks:
@@ -154,11 +156,40 @@ def check(ctx):
                     if len(c['lb']) < c['n_vars']:
                         c['lb'], c['ub'] = runlevel.make_box(rng, c['box'], c['n_vars'])
                     c['objective'] = rng.choice(['boundary', 'signchange', 'positive'])
+                if kind == 'BHA':
+                    # several stars overtaking the black hole in one generation (two exchanges in a row)
+                    # (objectives that are not monotone along the segment star -> black hole)
+                    c['n_agents'] = rng.choice([8, 12])
+                    c['n_iter'] = 10
+                    c['objective'] = rng.choice(['sphere', 'rastrigin', 'boundary', 'outside'])
+                    c['box'] = 'wide'
+                    c['lb'], c['ub'] = runlevel.make_box(rng, 'wide', c['n_vars'])
                 extra.append(c)
+    if prop == 'C20':
+        # greedy kinds on objectives whose unconstrained optimum lies outside the box: a trial accepted on an
+        # out-of-box value would be clipped and re-evaluated to something worse
+        rng = _random.Random(seed * 19 + 11)
+        pool = [c for c in runlevel.gen_configs('thorough', seed + 44) if c['kind'] in ('ABC', 'CS', 'FPA', 'HS', 'IHS', 'PSO', 'AIWPSO', 'RPSO')]
+        for kind in ('ABC', 'CS', 'FPA', 'HS', 'IHS', 'PSO', 'AIWPSO', 'RPSO'):
+            for c in [c for c in pool if c['kind'] == kind][:5 if tier == 'quick' else 25]:
+                box = rng.choice(['unit', 'offset', 'narrow'])
+                c = dict(c, hook='observer', n_iter=rng.choice([3, 6]), objective=rng.choice(['outside', 'boundary']), box=box)
+                c['lb'], c['ub'] = runlevel.make_box(rng, box, c['n_vars'])
+                extra.append(c)
+    return extra
+
+
+def check(ctx):
+    prop, tier, seed = ctx['prop'], ctx['tier'], ctx['seed']
+    res = runpass.cached_pass(tier, seed)
+    res = dict(res, runs=list(res['runs']))
+    # property-specific extra runs (not shared): rare sites and settings of this property
+    extra = extra_configs(prop, tier, seed)
+    if extra:
         drv = common.Driver()
         try:
             for c in extra:
-                res['runs'].append(runpass.analyse_run(c, drv, props=['C07']))
+                res['runs'].append(runpass.analyse_run(c, drv, props=[prop]))
         finally:
             drv.close()
     issues = collect(prop, res)
@@ -247,7 +278,7 @@ def search(ctx, corr_broken, broken):
                         i['replay'] = dict(how='runlevel', cfg=cfg, what=i['what'])
                         return i
         # (2) the property's generator, thorough budget, adversarial draws forced on
-        cfgs = runlevel.gen_configs('thorough', ctx['seed'] + 1000)
+        cfgs = extra_configs(prop, 'thorough', ctx['seed'] + 1000) + runlevel.gen_configs('thorough', ctx['seed'] + 1000)
         if kinds:
             cfgs = [c for c in cfgs if c['kind'] in kinds] + [c for c in cfgs if c['kind'] not in kinds][:200]
         else:
